@@ -428,6 +428,30 @@ pub fn keepalive_sessions_with(prop: &str, a: &Args, st: &mut Stats, cancel_us: 
     } } }
 }
 
+/// a long session on a connection MADE BY THE BUILDER (whatever options it switches on for UDP): the peer answers the ISI with 24 datagrams of
+/// five 200-byte packets each (24 000 bytes, four times the receive buffer); every packet must arrive intact and in order.
+pub fn builder_session(blocking: bool, compressed: bool) -> Option<String> {
+    let server = UdpSocket::bind("127.0.0.1:0").ok()?; server.set_read_timeout(Some(Duration::from_millis(1500))).ok()?;
+    let saddr = server.local_addr().ok()?;
+    let frame = move |i: u16| -> Vec<u8> { let mut f = vec![if compressed { 50 } else { 200 }, 3, (i % 255) as u8 + 1, 3]; f.extend((0..196).map(|k| (i as usize * 7 + k) as u8)); f };
+    let total: u16 = 120;
+    let h = std::thread::spawn(move || { let mut buf = [0u8; 2048]; if let Ok((_, from)) = server.recv_from(&mut buf) { for d in 0..total / 5 { let mut dg = vec![]; for k in 0..5 { dg.extend(frame(d * 5 + k)); } let _ = server.send_to(&dg, from); if d % 4 == 3 { std::thread::sleep(Duration::from_millis(2)); } } } });
+    let rt = tokio::runtime::Builder::new_current_thread().enable_all().build().ok()?;
+    let r = guard(|| {
+        let mut b = insim::builder::Builder::new().verify_version(false);
+        b = if compressed { b.compressed() } else { b.uncompressed() };
+        let bb = b.udp(saddr, None);
+        let tok = |r: Result<Packet, insim::Error>| match r { Ok(Packet::Tiny(t)) => format!("{}", t.reqi.0), Ok(p) => format!("{:?}", p).chars().take(16).collect(), Err(e) => format!("ERR {:?}", e).chars().take(30).collect() };
+        let mut got: Vec<String> = vec![];
+        if blocking { if let Ok(mut c) = bb.connect_blocking() { for _ in 0..total { let t = tok(c.read()); let stop = t.starts_with("ERR"); got.push(t); if stop { break; } } } else { got.push("connect failed".into()); } }
+        else { rt.block_on(async { match bb.connect_async().await { Ok(mut c) => { for _ in 0..total { let t = match tokio::time::timeout(Duration::from_secs(2), c.read()).await { Ok(r) => tok(r), Err(_) => "ERR stalled".to_string() }; let stop = t.starts_with("ERR"); got.push(t); if stop { break; } } }, Err(_) => got.push("connect failed".into()) } }); }
+        got
+    });
+    let _ = h.join();
+    let want: Vec<String> = (0..total).map(|i| format!("{}", (i % 255) as u8 + 1)).collect();
+    match r { None => Some("panic".into()), Some(got) => if got == want { None } else { let pos = got.iter().zip(want.iter()).position(|(a, b)| a != b).unwrap_or(got.len().min(want.len())); Some(format!("packet #{pos} of {total} (after {} bytes): got {:?}, want request id {:?}", pos * 200, got.get(pos), want.get(pos))) } }
+}
+
 /// every kind written over UDP, variable-length kinds at every size class up to the mode's largest frame: one datagram per write, holding the frame
 pub fn all_sizes_written(imp: &str, rt: &tokio::runtime::Runtime, compressed: bool) -> (usize, Option<String>) {
     let mut packets: Vec<Packet> = crate::gen::kinds::default_packets();
@@ -527,6 +551,9 @@ pub fn run(a: &Args) {
             }
         }
     }
+    // connections made by the builder, long sessions
+    for compressed in [true, false] { for blocking in [true, false] { st.evaluations += 120; st.bump("builder-made udp sessions");
+        if let Some(w) = builder_session(blocking, compressed) { st.fail(format!("[C08 builder {}] {w}", if blocking { "blocking" } else { "tokio" }), format!("buildersession {} {}", blocking as u8, mode_tag(compressed))); } } }
     // datagrams of exactly 1020 bytes from a lock-step peer: six of them fill the connection's 6120-byte receive buffer to the last byte
     for compressed in [true, false] { for imp in ["B", "A"] {
         let tiny = |len: usize, reqi: u8| -> Vec<u8> { let mut f = vec![if compressed { (len / 4) as u8 } else { len as u8 }, 3, reqi, 3]; f.resize(len, 0); f };
